@@ -1535,11 +1535,26 @@ Proof.
 Qed.
 
 (* ================================================================== 14. the session's grid *)
+Section SessionGen.
+  Variable ins : grid -> quad -> grid.
+  Definition step_gen (g : grid) (o : sop) : grid := match o with SInsert q => ins g q | _ => g end.
+  Lemma step_gen_fold ops : forall g, fold_left step_gen ops g = fold_left ins (inserted ops) g.
+  Proof.
+    induction ops as [|o ops IH]; intro g; [reflexivity|].
+    destruct o; cbn [fold_left step_gen inserted]; apply IH.
+  Qed.
+End SessionGen.
+
+Lemma fold_left_ext {A B} (f f' : A -> B -> A) l : (forall a b, f a b = f' a b) -> forall a, fold_left f l a = fold_left f' l a.
+Proof. intro E. induction l as [|b l IH]; intro a; [reflexivity|]. cbn [fold_left]. rewrite E. apply IH. Qed.
+
+Lemma sess_step_gen g o : sess_step false g o = step_gen insert g o.
+Proof. destruct o; reflexivity. Qed.
+
 Theorem session_retention ops :
   sess_run false ops = fold_left insert (inserted ops) (new_grid 1 1 module_resolution).
 Proof.
-  unfold sess_run. generalize (new_grid 1 1 module_resolution).
-  induction ops as [|[| |q] ops IH]; intro g; cbn [fold_left sess_step inserted]; [reflexivity|apply IH..].
+  unfold sess_run. rewrite (fold_left_ext _ _ ops sess_step_gen). apply step_gen_fold.
 Qed.
 
 (* with an Init that replaces the grid at every join the stored planes are lost (finding F3) *)
